@@ -45,6 +45,20 @@ func panicClass(c *fw.Ctx, fn *ssa.Function, pn *ssa.Panic) (class, detail strin
 	if contract {
 		return "caller-contract", "the guard tests a parameter / input field of the local caller (nil dependency, enum value, arity)"
 	}
+	if cl, d := namedPanicClass(name); cl != "" {
+		return cl, d
+	}
+	// an unexported helper that is only called from functions of one class (a panic moved out
+	// of an accessor together with the code it guards) inherits that class
+	if fn.Object() != nil && !fn.Object().Exported() {
+		if owners := redactionAccessorRegion(c); owners[fn] {
+			return "accessor:redaction", "helper only reachable from the redaction-based accessors (F3: same-parse + content-object check)"
+		}
+	}
+	return "", cond.String()
+}
+
+func namedPanicClass(name string) (string, string) {
 	switch name {
 	case "gmsl.MustGetRoomVersion", "gmsl/spec.NewUserIDOrPanic":
 		return "must-helper", "discharged per call site"
@@ -55,7 +69,52 @@ func panicClass(c *fw.Ctx, fn *ssa.Function, pn *ssa.Panic) (class, detail strin
 	case "(*gmsl.eventV2).EventID", "(*gmsl.eventV1).Redact", "(*gmsl.eventV2).Redact", "(*gmsl.eventV1).Sign", "(*gmsl.eventV2).Sign":
 		return "accessor:redaction", "redaction / canonicalisation of the stored JSON (F3: same-parse + content-object check)"
 	}
-	return "", cond.String()
+	return "", ""
+}
+
+var redactionRegionMemo map[*ssa.Function]bool
+
+// redactionAccessorRegion: the redaction-based accessors and the unexported functions all of
+// whose static callers lie in the region (fixpoint).
+func redactionAccessorRegion(c *fw.Ctx) map[*ssa.Function]bool {
+	if redactionRegionMemo != nil {
+		return redactionRegionMemo
+	}
+	region := map[*ssa.Function]bool{}
+	all := c.P.SrcFuncs()
+	for _, f := range all {
+		if cl, _ := namedPanicClass(fw.FuncName(f)); cl == "accessor:redaction" {
+			region[f] = true
+		}
+	}
+	callers := map[*ssa.Function][]*ssa.Function{}
+	for _, f := range all {
+		for _, call := range fw.Calls(f) {
+			if callee := call.Common().StaticCallee(); callee != nil {
+				callers[callee] = append(callers[callee], f)
+			}
+		}
+	}
+	for changed := true; changed; {
+		changed = false
+		for _, f := range all {
+			if region[f] || f.Object() == nil || f.Object().Exported() || len(callers[f]) == 0 {
+				continue
+			}
+			okAll := true
+			for _, cl := range callers[f] {
+				if !region[cl] {
+					okAll = false
+				}
+			}
+			if okAll {
+				region[f] = true
+				changed = true
+			}
+		}
+	}
+	redactionRegionMemo = region
+	return region
 }
 
 func checkC18(c *fw.Ctx) {
@@ -101,7 +160,7 @@ func checkF1(c *fw.Ctx) {
 		for _, b := range fn.Blocks {
 			for _, ins := range b.Instrs {
 				pn, ok := ins.(*ssa.Panic)
-				if !ok {
+				if !ok || fw.IsSyntheticPanic(pn) {
 					continue
 				}
 				n++
@@ -272,26 +331,47 @@ func checkF3(c *fw.Ctx) {
 		}
 		c.Check(ok, rule, "CheckFields rejects events whose content is not a JSON object", c.P.Pos(fn.Pos()), "", "no rejection of non-object content: redaction decodes content into a map, so EventID(), Redact() and Sign() panic on such an event")
 	}
-	// the accessors panic only on errors of operations over the stored JSON (same-parse)
-	for _, spec := range []string{"(*eventV2).EventID", "(*eventV1).Redact", "(*eventV2).Redact", "(*eventV1).Sign", "(*eventV2).Sign"} {
-		fn := mustFunc(c, rule, spec)
-		if fn == nil {
-			continue
-		}
+	// the accessors (and the helpers only they reach) panic only on errors of operations over
+	// the event's own state (same-parse): the guard of each panic tests the failure of a call
+	// whose inputs derive from the receiver
+	var region []*ssa.Function
+	for f := range redactionAccessorRegion(c) {
+		region = append(region, f)
+	}
+	sort.Slice(region, func(i, j int) bool { return fw.FuncName(region[i]) < fw.FuncName(region[j]) })
+	for _, fn := range region {
+		spec := strings.TrimPrefix(fw.FuncName(fn), "gmsl.")
+		spec = strings.Replace(spec, "(*gmsl.", "(*", 1)
 		for _, b := range fn.Blocks {
 			for _, ins := range b.Instrs {
-				if pn, ok := ins.(*ssa.Panic); ok {
-					var all []string
-					for _, f := range fw.DomConds(b) {
-						all = append(all, f.String())
-					}
-					last := ""
-					if len(all) > 0 {
-						last = all[len(all)-1]
-					}
-					ok := strings.Contains(last, "recv.") && (strings.Contains(last, "eventJSON") || strings.Contains(last, "roomVersion"))
-					c.Check(ok, rule, spec+" panics only on failures over the event's own stored JSON / version", c.P.Pos(fw.InstrPos(pn)), "", "panic guarded by "+last)
+				pn, ok := ins.(*ssa.Panic)
+				if !ok || fw.IsSyntheticPanic(pn) {
+					continue
 				}
+				construct := spec + " panics only on failures over the event's own stored JSON / version"
+				facts := fw.DomConds(b)
+				if len(facts) == 0 || len(fn.Params) == 0 {
+					c.Undecided(rule, construct, "unconditional panic or no receiver")
+					continue
+				}
+				last := facts[len(facts)-1]
+				v, _, isNil := fw.NilCheck(last.If.Cond)
+				if !isNil {
+					c.Undecided(rule, construct, "the panic is not guarded by an error test: "+last.String())
+					continue
+				}
+				recv := ssa.Value(fn.Params[0])
+				spec3 := fw.FlowSpec{IsSource: func(x ssa.Value) bool { return x == recv }, Arith: true, Through: func(cl ssa.CallInstruction) []int {
+					var idx []int
+					for i := range cl.Common().Args {
+						idx = append(idx, i)
+					}
+					if cl.Common().IsInvoke() {
+						idx = append(idx, -1)
+					}
+					return idx
+				}}
+				c.CheckDerives(v, nil, spec3, rule, construct, c.P.Pos(fw.InstrPos(pn)), "", "the failure that leads to this panic ("+last.String()+") is not computed from the event's own state: data that did not pass the constructors' validation can trigger it")
 			}
 		}
 	}
@@ -300,7 +380,32 @@ func checkF3(c *fw.Ctx) {
 func checkF4(c *fw.Ctx) {
 	rule := "F4 assume-valid"
 	n := 0
-	established := func(fn *ssa.Function, call ssa.CallInstruction, arg ssa.Value) (bool, string) {
+	var established func(fn *ssa.Function, call ssa.CallInstruction, arg ssa.Value, depth int) (bool, string)
+	established = func(fn *ssa.Function, call ssa.CallInstruction, arg ssa.Value, depth int) (bool, string) {
+		// a parameter of an unexported helper: established iff it is at every call site
+		if p, isP := fw.Unwrap(arg).(*ssa.Parameter); isP && depth < 3 && fn.Object() != nil && !fn.Object().Exported() {
+			idx := -1
+			for i, q := range fn.Params {
+				if q == p {
+					idx = i
+				}
+			}
+			sites := 0
+			for _, caller := range c.P.SrcFuncs() {
+				for _, cs := range fw.Calls(caller) {
+					if cs.Common().StaticCallee() != fn || idx < 0 || idx >= len(cs.Common().Args) {
+						continue
+					}
+					sites++
+					if ok, why := established(caller, cs, cs.Common().Args[idx], depth+1); !ok {
+						return false, "at the call in " + fw.FuncName(caller) + ": " + why
+					}
+				}
+			}
+			if sites > 0 {
+				return true, fmt.Sprintf("established at all %d call sites of %s", sites, fw.FuncName(fn))
+			}
+		}
 		// (a) provenance: produced by a JSON producer or stored event JSON
 		prod := fw.FlowSpec{IsSource: func(v ssa.Value) bool {
 			if cc, idx := fw.CallOf(v); cc != nil && idx == 0 {
@@ -368,7 +473,7 @@ func checkF4(c *fw.Ctx) {
 				ok = strings.Contains(condsOf(call.Block()), "gjson.Valid(")
 				why = "behind gjson.Valid"
 			} else {
-				ok, why = established(fn, call, arg)
+				ok, why = established(fn, call, arg, 0)
 			}
 			c.Check(ok, rule, fmt.Sprintf("%s is applied to established-valid JSON in %s", strings.TrimPrefix(cn, "gmsl."), name), c.P.Pos(call.Pos()), why, fmt.Sprintf("%s assumes valid JSON (it indexes past tokens without bounds checks) but %s", cn, why))
 		}
